@@ -677,13 +677,16 @@ META = {
               "prediction, every run; plus calls entered from inside the shutdown path after each of its steps and "
               "channel requests raced by the loss. The ORDER of the wake-ups on both shutdown paths and the guard of "
               "Channel._event_pending are regenerated from the AST every run and the rows are built from them "
-              "(accept_is_notified_after_inactive, both_paths_close_channels; witnesses "
+              "(accept_is_notified_after_inactive, both_paths_close_channels, every_api_has_a_row, "
+              "no_unclassified_wait_site; witnesses "
               "accept_notify_before_inactive_hangs_witness, channel_request_old_hangs_when_loss_races_the_call_witness)."),
     "note": ("Not modelled: wake-up latency, OS thread scheduling, sockets and child-process signalling. On the real "
              "code the `during` phase is sampled at the steps of the shutdown that can be wrapped from outside (only the "
-             "model covers all interleavings). The table rows abstract each API to its wait shape (hand-written, "
-             "validated by the behavioural correspondence); the wake-ups each shutdown path delivers and their order "
-             "come from the AST (trusted: the event recogniser in pv/lib_lockdisc.teardown). A call still blocked T "
+             "model covers all interleavings). The table rows abstract each API to its wait shape, classified from the AST "
+             "of the function behind it on every run (every X.wait()/time.sleep() site: poll / event / cv loop / single "
+             "cv wait, pre-check of `active`, loop tests of `active` and of the closed flag) and validated by the "
+             "behavioural correspondence; the wake-ups each shutdown path delivers and their order "
+             "come from the AST as well (trusted: the recognisers in pv/lib_lockdisc: wait_shapes, teardown). A call still blocked T "
              "seconds after the loss counts as blocked."),
     "technique": "Lean 4 proof (closed reachable set of a 2-thread interleaving model, decide +kernel + induction) + watchdog correspondence on real transports",
 }
